@@ -213,7 +213,7 @@ fn fam_div<const N: usize>(ctx: &Ctx) {
             return;
         }
     }
-    let (cap_n, cap_d) = if ctx.thorough() { (4000, 6000) } else if N >= 32 { (500, 700) } else { (1500, 1200) };
+    let (cap_n, cap_d) = match (ctx.thorough(), N >= 32) { (true, true) => (1500, 2000), (true, false) => (3000, 4000), (false, true) => (500, 700), (false, false) => (1500, 1200) };
     let ns = thin(dividends(N, ctx), cap_n);
     let ds = thin(divisors(N, ctx), cap_d);
     let classify_all = N <= 4;
@@ -347,7 +347,7 @@ fn fam_div<const N: usize>(ctx: &Ctx) {
     if ctx.want(fam) {
         let his: Vec<Limbs> = if N <= 2 { full(N, &l5()) } else { runs(N, &l3(), 2) };
         let los: Vec<Limbs> = if N <= 2 { full(N, &l5()) } else { runs(N, &l3(), 2) };
-        let cap = if ctx.thorough() { 3000 } else { 400 };
+        let cap = if ctx.thorough() { 1200 } else { 400 };
         let dthin = thin(ds.clone(), cap);
         let dz: Vec<&Limbs> = dthin.iter().filter(|d| !is_zero(d)).collect();
         let (his, los) = if N > 8 { (thin(his, 40), thin(los, 40)) } else { (his, los) };
@@ -768,7 +768,16 @@ fn fam_boxed(ctx: &Ctx) {
     let nsets: Vec<Vec<Limbs>> = (0..=maxn).map(|n| if n == 0 || !pairs.iter().any(|p| p.0 == n) { vec![] } else { boxed_vals(n, ctx, false) }).collect();
     let dsets: Vec<Vec<Limbs>> = (0..=maxn).map(|n| if n == 0 || !pairs.iter().any(|p| p.1 == n) { vec![] } else { boxed_vals(n, ctx, true) }).collect();
     for (la, lb) in pairs {
-        let (sa, sd) = (&nsets[la], &dsets[lb]);
+        // above 20 limbs the thorough sets (every run boundary x every bit length) are stride-thinned: the complete
+        // product took 40 min; every width 1..=70 is still visited
+        let (ta, td);
+        let (sa, sd) = if th && la.max(lb) > 20 {
+            ta = thin(nsets[la].clone(), 300);
+            td = thin(dsets[lb].clone(), 900);
+            (&ta, &td)
+        } else {
+            (&nsets[la], &dsets[lb])
+        };
         let k = sd.len();
         ctx.par_for(fam, &format!("Boxed<{la}>/<{lb}>"), sa.len() * k, |i, l| boxed_case(&sa[i / k], &sd[i % k], i, l));
     }
